@@ -470,6 +470,14 @@ def splice_fn(text, item, log):
             if int(k) >= len(ends):
                 raise Undecided("%s: statement ordinal %s in loop %s not found" % (name, k, l))
             add(ends[int(k)], "\n" + p["text"] + "\n", 1)
+        elif where.startswith("after_each:"):
+            # the same proof text after EVERY match of a regex (e.g. a statement repeated in several match arms)
+            rx = re.compile(where.split(":", 1)[1])
+            ms = list(rx.finditer(text))
+            if len(ms) != p.get("count", len(ms)) or not ms:
+                raise Undecided("%s: proof anchor regex %r matched %d times" % (name, where[:60], len(ms)))
+            for mm in ms:
+                add(mm.end(), "\n" + p["text"] + "\n", 1)
         elif where.startswith("after:") or where.startswith("before:"):
             mode, lit = where.split(":", 1)
             n = text.count(lit)
@@ -498,7 +506,16 @@ def extract_item(repo, item, log):
     path = item["file"]
     with open("%s/%s" % (repo, path), encoding="utf-8") as fh:
         src = fh.read()
-    loc = locate(src, item["path"])
+    try:
+        loc = locate(src, item["path"])
+    except Undecided as e:
+        # an `optional` item (a helper the function under contract may or may not call) that is
+        # absent from the tree is skipped: if the function still calls it, the unit does not compile
+        # and the check is undecided; nothing is assumed about it
+        if item.get("optional") and "found 0 times" in str(e):
+            log.append(dict(item=item["path"][-1], rule="optional-absent", before="", after="", times=0))
+            return None
+        raise
     name = item.get("name") or item["path"][-1].split(" ", 1)[1]
     item = dict(item, name=name)
     original = src[loc["sig_start"]:loc["end"]]
